@@ -1,6 +1,7 @@
 package rules
 
 import (
+	"fmt"
 	"strings"
 
 	"kyverif/internal/efx"
@@ -41,25 +42,47 @@ func init() {
 }
 
 func init() {
-	Register(&Property{ID: "C05", Trusted: commonTrusted, RuleText: "EFX-OPI / SH-RET / EFX-INDEP", Explanation: "value semantics (effects)", Run: func(c *Ctx) {
-		p := c.Prog("default")
-		if p == nil {
-			return
+	Register(&Property{ID: "C05", Trusted: commonTrusted, RuleText: "EFX-OPI / SH-RET / EFX-INDEP / EFX-ALIAS", Explanation: "value semantics (effects)", Run: func(c *Ctx) {
+		cfgs := []string{"default", "ct"}
+		if c.Tier == "thorough" {
+			cfgs = append(cfgs, "generic")
 		}
-		an := efx.NewAnalyzer(p)
-		EFXValueSemantics(c, "default", an)
-		EFXAlias(c, "default", an)
-		c.R.Extra["efx_stats"] = an.Stats
+		for _, cfg := range cfgs {
+			p := c.Prog(cfg)
+			if p == nil {
+				continue
+			}
+			an := efx.NewAnalyzer(p)
+			cfgTag(c, cfg, func() {
+				EFXValueSemantics(c, cfg, an)
+				EFXAlias(c, cfg, an)
+			})
+			c.R.Extra["efx_stats_"+cfg] = an.Stats
+			if cfg != "default" {
+				c.Drop(cfg)
+			}
+		}
 	}})
 	Register(&Property{ID: "C20", Trusted: commonTrusted, RuleText: "EFX-RO", Explanation: "read-only (effects)", Run: func(c *Ctx) {
-		p := c.Prog("default")
-		if p == nil {
-			return
+		cfgs := []string{"default", "ct"}
+		if c.Tier == "thorough" {
+			cfgs = append(cfgs, "generic")
 		}
-		an := efx.NewAnalyzer(p)
-		EFXReadOnlyTypes(c, "default", an)
-		EFXReadOnlyTargets(c, "default", an)
-		c.R.Extra["efx_stats"] = an.Stats
+		for _, cfg := range cfgs {
+			p := c.Prog(cfg)
+			if p == nil {
+				continue
+			}
+			an := efx.NewAnalyzer(p)
+			cfgTag(c, cfg, func() {
+				EFXReadOnlyTypes(c, cfg, an)
+				EFXReadOnlyTargets(c, cfg, an)
+			})
+			c.R.Extra["efx_stats_"+cfg] = an.Stats
+			if cfg != "default" {
+				c.Drop(cfg)
+			}
+		}
 	}})
 }
 
@@ -112,7 +135,36 @@ func init() {
 	extraRules["C08"] = both(stale("sign/schnorr", "sign/eddsa", "sign/anon"), entropyRule("C08"))
 	extraRules["C02"] = entropyRule("C02")
 	extraRules["C17"] = entropyRule("C17")
-	extraRules["C19"] = entropyRule("C19")
+	extraRules["C19"] = both(entropyRule("C19"), func(c *Ctx) { CheckMustWrite(c, "C19") }, func(c *Ctx) {
+		// XOF clones share no mutable state with their original (EFX-INDEP) and Clone writes nothing
+		p := c.Prog("default")
+		if p == nil {
+			return
+		}
+		an := efx.NewAnalyzer(p)
+		for _, it := range c.implTypes(p) {
+			if it.Kind != "xof" {
+				continue
+			}
+			if fn := p.Method(it.Named, "Clone"); fn != nil && len(fn.Blocks) > 0 {
+				s := an.Summary(fn)
+				indep(c, p, it.Named, shortFn(fn), p.FnPos(fn), s, "R0")
+				roCheck(c, p, an, fn, "EFX-RO", nil)
+			}
+			for _, m := range []string{"Write", "Reseed"} {
+				if fn := p.Method(it.Named, m); fn != nil && len(fn.Blocks) > 0 {
+					// the absorbed bytes are only read
+					s := an.Summary(fn)
+					bad := writesOutside(fn, s, func(i int) bool { return i == 0 })
+					if len(bad) > 0 {
+						c.R.Bad("EFX-OPI", shortFn(fn), "operands", p.FnPos(fn), "may write memory other than its receiver: "+describeWrites(p, s, bad))
+					} else {
+						c.R.Ok("EFX-OPI", shortFn(fn), "operands", p.FnPos(fn), "", true)
+					}
+				}
+			}
+		}
+	})
 	extraRules["C09"] = func(c *Ctx) {
 		stale("sign/bls", "sign/tbls", "sign/bdn", "sign/cosi")(c)
 		PairedUpdates(c, "default")
@@ -158,4 +210,55 @@ func init() {
 		NilBase(c, "default")
 		CheckMustWrite(c, "C01")
 	}})
+}
+
+// tierConfigs: build configurations analysed per tier.
+func tierConfigs(c *Ctx) []string {
+	if c.Tier == "thorough" {
+		return []string{"default", "ct", "generic"}
+	}
+	return []string{"default"}
+}
+
+func init() {
+	Register(&Property{ID: "C18", Trusted: commonTrusted, RuleText: "SH-SIBCONST / SH-CONFIG / EFX per configuration", Explanation: "implementations agree (structure)", Run: func(c *Ctx) {
+		SiblingConstants(c, "default")
+		cfgs := []string{"default", "ct", "generic"}
+		if c.Tier == "thorough" {
+			cfgs = append(cfgs, "purego", "arm64")
+		}
+		for _, cfg := range cfgs {
+			p := c.Prog(cfg)
+			if p == nil {
+				c.R.Bad("SH-CONFIG", "build", cfg, "", "configuration does not type-check")
+				continue
+			}
+			c.R.Ok("SH-CONFIG", "build", cfg, "", fmt.Sprintf("%d packages", len(p.Pkgs)), true)
+			if cfg == "purego" || cfg == "arm64" {
+				c.Drop(cfg)
+				continue
+			}
+			// every build variant of every implementation individually has value semantics:
+			// aliasing or operand mutation cannot make variants diverge on the same program
+			an := efx.NewAnalyzer(p)
+			cfgTag(c, cfg, func() {
+				EFXValueSemantics(c, cfg, an)
+				EFXAlias(c, cfg, an)
+			})
+			if cfg != "default" {
+				c.Drop(cfg)
+			}
+		}
+	}})
+}
+
+// cfgTag marks the obligations added by f with the configuration.
+func cfgTag(c *Ctx, cfg string, f func()) {
+	n := len(c.R.Obls)
+	f()
+	for _, o := range c.R.Obls[n:] {
+		if o.Config == "" {
+			o.Config = cfg
+		}
+	}
 }
